@@ -1,6 +1,7 @@
 package main
 
 import (
+	"go/ast"
 	"go/types"
 	"strings"
 
@@ -33,11 +34,12 @@ type WriteSet struct {
 	Maps    map[string]bool
 	All     bool
 	Calls   map[string]bool // contracted / spec'd callees whose effects are applied separately
+	Params  map[int]bool    // pointees of the function's own pointer parameters
 }
 
 func newWriteSet() *WriteSet {
 	return &WriteSet{Fields: map[fieldKey]bool{}, Elems: map[string]bool{}, Derefs: map[string]bool{},
-		Allocs: map[*ssa.Alloc]bool{}, Globals: map[*ssa.Global]bool{}, Maps: map[string]bool{}, Calls: map[string]bool{}}
+		Allocs: map[*ssa.Alloc]bool{}, Globals: map[*ssa.Global]bool{}, Maps: map[string]bool{}, Calls: map[string]bool{}, Params: map[int]bool{}}
 }
 
 func (w *WriteSet) merge(o *WriteSet) {
@@ -135,7 +137,70 @@ func (c *wsCtx) instrWrites(ws *WriteSet, ins ssa.Instruction) {
 	}
 }
 
+// addrRoot follows field/index address computations down to the value the address is derived from.
+func addrRoot(v ssa.Value) ssa.Value {
+	for {
+		switch a := v.(type) {
+		case *ssa.FieldAddr:
+			v = a.X
+		case *ssa.IndexAddr:
+			if _, isPtr := a.X.Type().Underlying().(*types.Pointer); isPtr {
+				v = a.X
+			} else {
+				return v
+			}
+		default:
+			return v
+		}
+	}
+}
+
+func paramIndex(p *ssa.Parameter) int {
+	for i, q := range p.Parent().Params {
+		if q == p {
+			return i
+		}
+	}
+	return -1
+}
+
+// ptrWrites records a write through the pointer value v (of the current function).
+func (c *wsCtx) ptrWrites(ws *WriteSet, v ssa.Value) {
+	switch r := addrRoot(v).(type) {
+	case *ssa.Parameter:
+		if i := paramIndex(r); i >= 0 {
+			ws.Params[i] = true
+			return
+		}
+	case *ssa.Alloc:
+		ws.Allocs[r] = true
+		return
+	case *ssa.Global:
+		ws.Globals[r] = true
+		return
+	}
+	if p, ok := v.Type().Underlying().(*types.Pointer); ok {
+		c.reachWritesShallow(ws, p.Elem())
+	} else {
+		c.reachWrites(ws, v.Type())
+	}
+}
+
+func (c *wsCtx) reachWritesShallow(ws *WriteSet, t types.Type) {
+	ws.Derefs[typeKey(t)] = true
+}
+
 func (c *wsCtx) addrWrites(ws *WriteSet, addr ssa.Value) {
+	switch r := addrRoot(addr).(type) {
+	case *ssa.Parameter:
+		if i := paramIndex(r); i >= 0 {
+			ws.Params[i] = true
+			return
+		}
+	case *ssa.Alloc:
+		ws.Allocs[r] = true
+		return
+	}
 	switch a := addr.(type) {
 	case *ssa.FieldAddr:
 		st := a.X.Type().Underlying().(*types.Pointer).Elem()
@@ -164,7 +229,44 @@ func (c *wsCtx) addrWrites(ws *WriteSet, addr ssa.Value) {
 	}
 }
 
+// funcArgWrites: a callee that receives a function value may call it; its effects are the effects of the
+// function bodies that can flow there (closures / functions named at the call site, otherwise any
+// anonymous function of the enclosing function family).
+func (c *wsCtx) funcArgWrites(ws *WriteSet, call *ssa.CallCommon, ins ssa.Instruction) {
+	for _, a := range call.Args {
+		if _, ok := a.Type().Underlying().(*types.Signature); !ok {
+			continue
+		}
+		switch f := a.(type) {
+		case *ssa.MakeClosure:
+			ws.merge(c.fnWS(f.Fn.(*ssa.Function)))
+		case *ssa.Function:
+			ws.merge(c.fnWS(f))
+		default:
+			if ins != nil && ins.Parent() != nil {
+				root := ins.Parent()
+				for root.Parent() != nil {
+					root = root.Parent()
+				}
+				var rec func(f *ssa.Function)
+				rec = func(f *ssa.Function) {
+					for _, af := range f.AnonFuncs {
+						ws.merge(c.fnWS(af))
+						rec(af)
+					}
+				}
+				rec(root)
+				// bound methods ($bound wrappers) of repository types
+				if mc, ok := a.(*ssa.MakeClosure); ok {
+					_ = mc
+				}
+			}
+		}
+	}
+}
+
 func (c *wsCtx) callWrites(ws *WriteSet, call *ssa.CallCommon, ins ssa.Instruction) {
+	c.funcArgWrites(ws, call, ins)
 	if call.IsInvoke() {
 		// interface method: external unless spec says pure; pointer args may be written
 		name := invokeName(call)
@@ -229,14 +331,39 @@ func (c *wsCtx) funcWrites(ws *WriteSet, f *ssa.Function, call *ssa.CallCommon) 
 			ws.Calls[name] = true
 			// assigns of the contract are havocked at the cut through type keys of its params
 			ct := c.ex.Specs.Contracts[name]
-			if len(ct.Assigns) > 0 || !ct.PureFrame {
-				for _, a := range call.Args {
-					c.reachWrites(ws, a.Type())
+			if ct.PureFrame {
+				return
+			}
+			if ct.HasAssign {
+				// assigns clauses name parameters of the callee: *p, p.f, *p.f
+				for _, a := range ct.Assigns {
+					pn := assignRootName(a)
+					hit := false
+					for i, prm := range f.Params {
+						if prm.Name() == pn && i < len(call.Args) {
+							c.ptrWrites(ws, call.Args[i])
+							hit = true
+						}
+					}
+					if !hit {
+						ws.All = true
+					}
 				}
+				return
+			}
+			for _, a := range call.Args {
+				c.reachWrites(ws, a.Type())
 			}
 			return
 		}
-		ws.merge(c.fnWS(f))
+		cw := c.fnWS(f)
+		ws.merge(cw)
+		// writes through the callee's pointer parameters are writes through the corresponding arguments
+		for i := range cw.Params {
+			if i < len(call.Args) {
+				c.ptrWrites(ws, call.Args[i])
+			}
+		}
 		return
 	}
 	if c.ex.isPureCallee(name) {
@@ -290,10 +417,7 @@ func (c *wsCtx) reachWrites(ws *WriteSet, t types.Type) {
 			ws.Maps[typeKey(u)] = true
 			rec(u.Elem(), true)
 		case *types.Interface, *types.Signature:
-			// closures / dynamic values: unknown captured state
-			if _, isSig := u.(*types.Signature); isSig {
-				ws.All = true
-			}
+			// function values are handled by funcArgWrites; interface values hold external state
 		}
 	}
 	rec(t, false)
@@ -343,6 +467,23 @@ func (ex *Exec) loopWriteSet(fn *ssa.Function, lp *Loop) *WriteSet {
 	}
 	lp.WS = ws
 	return ws
+}
+
+func assignRootName(e ast.Expr) string {
+	for {
+		switch n := e.(type) {
+		case *ast.StarExpr:
+			e = n.X
+		case *ast.SelectorExpr:
+			e = n.X
+		case *ast.ParenExpr:
+			e = n.X
+		case *ast.Ident:
+			return n.Name
+		default:
+			return ""
+		}
+	}
 }
 
 func invokeName(call *ssa.CallCommon) string {
